@@ -197,13 +197,13 @@ func genHistRandom(c *Ctx, which string) {
 		hb.add(Step{Op: "new", H: 0, Name: "root"})
 		// definitions
 		bodies := memberBodies
+		if which == "C08" || (which == "" && c.rng.Intn(4) == 0) {
+			bodies = append(append([]string{}, memberBodies...), nodeKindBodies...)
+		}
 		if c.rng.Intn(5) == 0 {
 			// CSP-compatible sets: javascript: URIs and event handlers in the text become analysis errors
 			hb.add(Step{Op: "csp", H: 0})
 			bodies = append(append([]string{}, memberBodies[:8]...), cspBodies...)
-		}
-		if which == "C08" || (which == "" && c.rng.Intn(4) == 0) {
-			bodies = append(append([]string{}, memberBodies...), nodeKindBodies...)
 		}
 		text := pick(c, bodies)
 		if c.rng.Intn(3) == 0 {
